@@ -6,5 +6,5 @@ export GOFLAGS=-mod=mod GOPROXY=off GOSUMDB=off GOTOOLCHAIN=local CGO_ENABLED=1
 export GOCACHE="$(pwd)/.gocache"
 mkdir -p bin work evidence replays
 cp -f /repo/go.sum mc/go.sum 2>/dev/null || true
-(cd mc && go build -o ../bin/vmc . && go build -race -o ../bin/vmc-race .)
+(cd mc && go build -o ../bin/vmc . && go build -race -o ../bin/vmc-race . && go build -cover -coverpkg=github.com/emirpasic/gods/v2/...,verif/mc -o ../bin/vmc-cover .)
 echo "setup ok"
